@@ -29,7 +29,7 @@ m = {
     "setup_cmd": "./setup.sh",
     "hooks": {
         "guard": "verif",
-        "enable": "go build/test -tags verif (harness module github.com/magisterquis/curlrevshell/verifharness, replace => /repo); the hook is iobroker.VerifHook, called at admit/attached/release/return in Broker.connect",
+        "enable": "go build/test -tags verif (harness module github.com/magisterquis/curlrevshell/verifharness, replace => /repo); the hooks are iobroker.VerifHook (called at admit/attached/release/return in Broker.connect) and hsrv.Server.VerifHandler (returns the request handler so that it can be driven with scripted ResponseWriters); both files carry //go:build verif",
         "baseline_off_cmd": "cd /repo && GOFLAGS=-mod=mod GOPROXY=off GOSUMDB=off GOTOOLCHAIN=local go test -json -vet=off -count=1 -timeout 25m ./...",
         "source_commits": hook_commits,
         "add_only": True,
